@@ -10,6 +10,9 @@ permissions of every memory page, identical cpu and vm exception flags and ident
     memory maps      rw (data page readable+writable), ro (read-only), missing (no data page),
                      straddle (rw page, data pointer half an access width before its end: word accesses cross into
                                unmapped memory)
+                     straddle_ro / straddle_wo (same pointer, the next page is mapped read-only / write-only: a word
+                               store resp. load runs into a mapped page lacking the right; enumerated for the programs
+                               that contain a memory instruction)
     deviation        the default run has no breakpoint; one logging breakpoint (callback returns True) is placed at
                      each instruction boundary in turn (start, every interior boundary, the return sequence)
 
@@ -23,7 +26,7 @@ PROP = "C20"
 LEVEL = "exploration"
 ENGINE = "dev"
 RULE = ("all instruction sequences up to the tier's length bound over the ordered alphabet of each architecture x register "
-        "lattice x {rw, ro, missing, straddle} memory maps, plus one breakpoint at each instruction boundary in turn; both "
+        "lattice x {rw, ro, missing, straddle, and for programs with a memory instruction straddle_ro, straddle_wo} memory maps, plus one breakpoint at each instruction boundary in turn; both "
         "backends run every case; a case is non-trivial when the program contains a memory-accessing instruction, the run "
         "ends in a fault, or a breakpoint fires")
 LEVEL_TEXT = ("Complete enumeration of a finite lattice of programs, initial states, memory maps and breakpoint positions; the "
@@ -43,6 +46,11 @@ ASSUMPTIONS = ["the process-global simplifier pass table is put back to its impo
 
 BACKENDS = ("python", "gcc")
 KINDS = ("rw", "ro", "missing", "straddle")
+# straddle into a MAPPED neighbour page with weaker rights (rw data page, pointer as in `straddle`): next page read-only
+# (a word store must fault, a word load must not) / next page write-only, i.e. without PAGE_READ (a word load must fault).
+# Only meaningful for programs that access data memory: enumerated for the programs containing a memory instruction.
+EXTRA_KINDS = ("straddle_ro", "straddle_wo")
+NEXT_PAGE_PERM = {"straddle_ro": 1, "straddle_wo": 2}
 R, W = 1, 2
 DATA, DATA_SIZE = 0x2000, 0x40
 MAX_DISPATCH = 400
@@ -307,7 +315,7 @@ def initial(arch, state_i, kind):
     """Registers, data page permission / presence for one (state, memory map kind)."""
     spec = SPECS[arch]
     acc, cnt, op2 = spec["states"][state_i]
-    if kind == "straddle":
+    if kind.startswith("straddle"):
         ptr = DATA + DATA_SIZE - spec["wide"] // 2
         dst = DATA + DATA_SIZE - 1
     else:
@@ -329,13 +337,16 @@ def run_case(arch, backend, prog, state_i, kind, bp):
     jit = C.fresh_jitter(arch, backend)
     if spec["ret"] != "stack":
         regs[spec["ret"]] = end
+    extra = ()
+    if kind in NEXT_PAGE_PERM:
+        extra = ((DATA + DATA_SIZE, NEXT_PAGE_PERM[kind], bytes((i * 5 + 1) & 0xFF for i in range(DATA_SIZE))),)
     if "stack" in spec:
         base, size = spec["stack"]
-        J.setup(jit, code, regs=regs, data_perm=perm, map_data=mapped, stack=False)
+        J.setup(jit, code, regs=regs, data_perm=perm, map_data=mapped, stack=False, extra_pages=extra)
         jit.vm.add_memory_page(base, R | W, b"\x00" * size, "stack")
         setattr(jit.cpu, "SP", base + size)
     else:
-        J.setup(jit, code, regs=regs, data_perm=perm, map_data=mapped)
+        J.setup(jit, code, regs=regs, data_perm=perm, map_data=mapped, extra_pages=extra)
     bps = [(offs[bp], bp, True)] if bp is not None else []
     obs = C.execute(jit, J.CODE, breakpoints=bps, max_dispatch=MAX_DISPATCH, end=end)
     return C.summary(obs)
@@ -391,7 +402,9 @@ def judge(arch, prog, state_i, kind, bp):
     what = ("%s program [%s]%s, registers %s, data page %s: %s; python ended %s (pc=%s), gcc ended %s (pc=%s)" % (
         arch, _text(arch, prog), "" if bp is None else " with a breakpoint on boundary %d" % bp,
         {k: hex(v) for k, v in sorted(regs.items())},
-        "not mapped" if not mapped else "%#x..%#x %s" % (DATA, DATA + DATA_SIZE, "read-only" if perm == R else "read-write"),
+        "not mapped" if not mapped else "%#x..%#x %s%s" % (
+            DATA, DATA + DATA_SIZE, "read-only" if perm == R else "read-write",
+            "" if kind not in NEXT_PAGE_PERM else ", followed by a %s page" % ("read-only" if NEXT_PAGE_PERM[kind] == R else "write-only")),
         C.describe_diff(a, b, ("python", "gcc")), a["error"] or a["term"], hex(a["pc"]), b["error"] or b["term"], hex(b["pc"])))
     return [(sig, what)]
 
@@ -399,10 +412,12 @@ def judge(arch, prog, state_i, kind, bp):
 def cases(arch, tier, prog, with_bp):
     """Every (state, kind, breakpoint) of one program."""
     nstates = BOUNDS[tier][arch]["states"]
-    out = [(s, kind, None) for s in range(nstates) for kind in KINDS]
+    has_mem = any(SPECS[arch]["alphabet"][i][2] for i in prog)
+    kinds = KINDS + (EXTRA_KINDS if has_mem else ())
+    out = [(s, kind, None) for s in range(nstates) for kind in kinds]
     if with_bp:
         s = min(BP_STATE.get(arch, nstates - 1), nstates - 1)
-        out += [(s, kind, bp) for kind in KINDS for bp in range(len(prog) + 1)]
+        out += [(s, kind, bp) for kind in kinds for bp in range(len(prog) + 1)]
     return out
 
 
@@ -492,6 +507,7 @@ def run(ctx):
     cov["samples"] = samples[:4]
     cov["exhaustive"] = True
     cov["bounds"] = {"tier": tier, "backends": list(BACKENDS), "memory_maps": list(KINDS),
+                     "memory_maps_for_programs_with_a_memory_instruction": list(EXTRA_KINDS),
                      "per_arch": {a: {k: v for k, v in BOUNDS[tier][a].items() if k not in ("sub_idx", "extra_bp")} for a in archs},
                      "extra_breakpoint_programs": {a: [SPECS[a]["alphabet"][i][0] for i in BOUNDS[tier][a]["extra_bp"]] for a in archs},
                      "alphabets": {a: [e[0] for e in SPECS[a]["alphabet"]] for a in archs},
